@@ -528,15 +528,36 @@ func classes(d map[string]bool) (string, int) {
 	return strings.Join(ks, "+"), len(ks)
 }
 
+func appLabel(a channel.App) string {
+	switch k := appKey(a); k {
+	case "nil", "none", "invalid":
+		return k
+	case appKey(fx.PayApp):
+		return "A"
+	case appKey(fx.OtherApp):
+		return "B"
+	}
+	return "other"
+}
+
+// contentKey identifies the content of a state independently of the fixture keys.
+func contentKey(m *member) []byte {
+	return []byte(fmt.Sprintf("%x|%d|%v|%s|%s|%x", m.s.ID, m.s.Version, m.s.IsFinal, appLabel(m.s.App), dataKey(m.s.Data), m.encA))
+}
+
 // ---- the pair oracle ----
 
 type c15 struct {
 	res     *report.Result
 	verbose bool
+	only    *replay // replay mode: judge this (function, sub-allocation indices) only
 }
 
 // judge compares one comparison function's verdict with byte equality of the encodings.
 func (c *c15) judge(b stBase, x, y *member, typ, fn string, ia, ib int, diff func(d map[string]bool), ex, ey []byte, equal func() bool) {
+	if c.only != nil && (c.only.Fn != fn || c.only.IA != ia || c.only.IB != ib) {
+		return
+	}
 	var eq bool
 	p := try(func() { eq = equal() })
 	be := bytes.Equal(ex, ey)
@@ -545,7 +566,13 @@ func (c *c15) judge(b stBase, x, y *member, typ, fn string, ia, ib int, diff fun
 	diff(d)
 	cls, n := classes(d)
 	if n <= 1 {
-		h := sha1.Sum([]byte(fmt.Sprintf("%s|%d|%s|%d|%s", typ, len(ex), ex, len(ey), ey)))
+		// keyed by content (two catalogue positions with the same sub-value are one case); for states the
+		// app is rendered by label because the fixture app ids differ from process to process
+		kx, ky := ex, ey
+		if typ == "State" {
+			kx, ky = contentKey(x), contentKey(y)
+		}
+		h := sha1.Sum([]byte(fmt.Sprintf("%s|%d|%s|%d|%s", fn, len(kx), kx, len(ky), ky)))
 		c.res.Seen("nontrivial", fmt.Sprintf("%x", h[:6]))
 		c.res.Seen("diff_classes", typ+"/"+cls)
 	}
@@ -635,7 +662,8 @@ func (c *c15) sigCase(b stBase, x, y *member, k, j int) {
 	diffState(x.s, y.s, d)
 	cls, n := classes(d)
 	if n <= 1 {
-		h := sha1.Sum([]byte(fmt.Sprintf("sig|%d|%d|%d|%s|%s", k, j, len(x.encS), x.encS, y.encS)))
+		kx, ky := contentKey(x), contentKey(y)
+		h := sha1.Sum([]byte(fmt.Sprintf("sig|%d|%d|%d|%s|%s", k, j, len(kx), kx, ky)))
 		res.Seen("nontrivial", fmt.Sprintf("%x", h[:6]))
 	}
 	if want {
@@ -757,6 +785,9 @@ func replayC15(t *testing.T, res *report.Result, rp replay) {
 	}
 	x, y := memberByName(b, rp.A), memberByName(b, rp.B)
 	c := &c15{res: res, verbose: true}
+	if rp.Fn != "" {
+		c.only = &rp
+	}
 	fmt.Printf("  base %s: %s\n", b.name(), trunc(fmt.Sprintf("%+v", *b.build()), 600))
 	switch rp.Check {
 	case "equal":
